@@ -27,4 +27,37 @@ CLAIMS = {
                 "of the three predicate maps, distances >= 0 and not NaN) - established by the trace writers under C11; "
                 "container ownership (A-OWN); logging calls are no-ops. Trusted: pyvc, z3, CPython's ast.",
     },
+    "C11": {
+        "category": "proof",
+        "text": "Unbounded proof that ExecutionTrace.merge/_merge_min/update_predicate_distances compute the pointwise "
+                "min/sum/union view (so merging is commutative/associative on the coverage-relevant view), that they preserve "
+                "trace well-formedness, and that analyze_results folds them: a branch is covered by the merged trace iff some "
+                "merged test covers it, merged distances are lower bounds and counts upper bounds of every merged test.",
+        "note": "assumes floats as extended reals (A-FLOAT-R), container ownership (A-OWN). Monotonicity of the suite-level "
+                "*sums* (fitness is a finite sum of per-branch terms) is not discharged by the solver; only the per-branch "
+                "facts are. ExecutionTrace.__eq__ order-sensitivity (OrderedSet, instruction list) is outside the claim.",
+    },
+    "C17": {
+        "category": "proof",
+        "text": "Unbounded proof with a typestate ghost: every algorithm's generate_tests (MOSA, DynaMOSA, MIO, WholeSuite, "
+                "Random, both random-search variants) runs a search step only after a positive resources_left() check "
+                "since the last iteration boundary, and completed iterations never exceed the iteration budget; the three "
+                "budget conditions' counters/is_fulfilled, resources_left, the observer fan-out of "
+                "before_search_start/after_search_iteration and the factory's get_stopping_conditions (every configured "
+                "budget yields a condition with that limit) are verified against contracts.",
+        "note": "assumed: search steps (evolve, local_search, generate_sequence, _update_parameters) do not touch the "
+                "iteration counters (their bodies are not verified); calls to unmodelled attributes/objects have no effect "
+                "on the stopping conditions; the factory registers every stopping condition once as search observer "
+                "(wf_alg, precondition). Time/memory/plateau conditions are unconstrained.",
+    },
+    "C33": {
+        "category": "proof",
+        "text": "Unbounded proof of the master's restart protocol on the real RunningTask/MasterProcess code: the remaining "
+                "search time after a crash is floor(max(old - elapsed, 0)), strictly smaller when time has passed; _restart "
+                "starts a worker only while search time remains and strictly reduces it; get_result terminates (measure: "
+                "remaining search time) and returns either an object received from the pipe or an ERROR result.",
+        "note": "assumed library contracts: Connection.recv returns or raises (EOF when the worker died), Process.start does "
+                "not block, successive time.time() readings strictly increase. The worker side (worker_main) and "
+                "PynguinClient.run_pynguin are not yet under contract.",
+    },
 }
